@@ -504,6 +504,42 @@ def check_monotone_exit_loop(b, head, blocks, _unused=None):
     return False, "no exit test that becomes permanently true as the RangeFrom variable grows"
 
 
+NONREF_RESOLVERS = ("Document::get_object",)     # resolve a whole reference chain (bounded by DEREF_LIMIT): the result is never a Reference
+
+
+def check_resolver_loop(F, b, head, blocks):
+    """a loop that examines an object and goes round again only on the `Reference` arm, after replacing the object by the result
+    of Document::get_object: that result is never a reference, so the Reference arm cannot be taken twice in a row and the
+    loop runs at most twice."""
+    import lib
+    calls = [c for c in b.calls if c.bb in blocks and c.local and c.cname in NONREF_RESOLVERS]
+    if not calls:
+        return False, "no call to a resolver inside the loop"
+    if not every_cycle_passes(b, head, blocks, [c.bb for c in calls]):
+        return False, "a cycle of the loop does not pass a resolver call"
+    for c in calls:
+        ok = False
+        for g, s2 in lib.taken_edges(b, c.bb):
+            if g not in blocks:
+                continue
+            t = b.term(g)
+            d = b.def_rv(t["d"]) if t["dty"] != "bool" else None
+            if not (d and d[2] == "rv" and d[3]["k"] == "discr" and d[3].get("vars")):
+                continue
+            names = {str(v): n for v, n in d[3]["vars"]}
+            val = [str(v) for v, x in t["tg"] if x == s2]
+            if len(val) == 1 and names.get(val[0]) == "Reference":
+                # the object that was examined is the one that is replaced by the resolver's result
+                src = d[3]["p"]["l"]
+                scr = b.root_place({"l": src, "p": []}, through_names=True)["l"]
+                stores = [st for bi, si, st in b.stmts() if bi in blocks and "lhs" in st and not st["lhs"]["p"] and st["lhs"]["l"] == scr and b.dominates(c.bb, bi)]
+                if stores:
+                    ok = True
+        if not ok:
+            return False, "the resolver call at line %d is not on the Reference arm of the examined object, or its result does not replace that object" % c.ln
+    return True, "goes round only on the Reference arm after replacing the object by Document::get_object's result (never a reference): at most two turns"
+
+
 def check_termination(ctx, F, scope, loops_table, rec_table, rule="R-TERM"):
     """obligations for every non-iterator loop and every recursion cycle of the scope."""
     stats = {"loops": 0, "iter": 0, "local_iter": 0, "verified": 0, "tabled": 0, "open": 0, "sccs": 0}
@@ -539,6 +575,8 @@ def check_termination(ctx, F, scope, loops_table, rec_table, rule="R-TERM"):
                     ok, how = check_visited_loop(b, head, blocks, None)
                 elif w == "counter-or-pop":
                     ok, how = check_counter_or_pop_loop(b, head, blocks, None, None)
+                elif w == "resolver-loop":
+                    ok, how = check_resolver_loop(F, b, head, blocks)
                 elif w == "monotone-exit":
                     ok, how = check_monotone_exit_loop(b, head, blocks, None)
                 elif w == "tabled":
